@@ -75,6 +75,8 @@ func init() {
 		"runtime.KeepAlive":    func(fr *frame, a []value) value { return nil },
 		"runtime.SetFinalizer": func(fr *frame, a []value) value { return nil },
 		"runtime.Stack":        func(fr *frame, a []value) value { return 0 },
+		"runtime.Callers":      func(fr *frame, a []value) value { return 0 },
+		"runtime.Caller":       func(fr *frame, a []value) value { return tuple{uintptr(0), "", 0, false} },
 		"runtime/debug.Stack":  func(fr *frame, a []value) value { return []value{} },
 		"os.Exit": func(fr *frame, a []value) value {
 			fr.i.ex.fail("crash", "crash:os.Exit", "os.Exit called", fr.i.ex.modelOrNil())
@@ -177,7 +179,7 @@ func (i *interpreter) fpUn(op smt.Op, x value) value {
 func cellsOf(v value) []value {
 	switch x := v.(type) {
 	case []value:
-		return x
+		return forceBytes(x)
 	case string:
 		return strCells(x)
 	case symstr:
